@@ -42,7 +42,7 @@ def st_copy(draw):
     dt = draw(gens.st_dt())
     swapped = {'t': dt['t'], 'bo': '<' if dt['bo'] == '>' else '>'}
     spec = {'f': 'copy', 'kind': kind, 'dt': dt, 'seed': draw(st.integers(0, 2 ** 31)),
-            'dtarg': draw(st.one_of(st.none(), st.just(swapped), gens.st_dt(), gens.st_dt())),
+            'dtarg': draw(st.one_of(st.none(), st.just(swapped), gens.st_dt(), gens.st_dt())), 'dtspell': draw(st.sampled_from([0, 0] + list(range(1, 16)))),
             'meta': draw(st.sampled_from([None, 'nested'])), 'mode': draw(st.sampled_from(['r', 'r+'])),
             'mut': draw(st.sampled_from(MUTS + [None])), 'side': draw(st.sampled_from(['src', 'copy'])),
             # 'occupied': the target path holds another array with metadata and is replaced (overwrite=True);
@@ -170,6 +170,11 @@ def _exec_copy(ctx, spec):
         src, sp, ref, md = build_source(spec, d)
         dtarg = dt_of(spec['dtarg']) if spec['dtarg'] else None
         tdt = dtarg if dtarg is not None else dt_of(spec['dt'])
+        if dtarg is not None and spec.get('dtspell'):
+            # the same target type written another way (type class, name, one-letter code, alias, Python type): what is passed to
+            # copy() is the spelling, what the copy must have is the dtype NumPy resolves it to
+            dtarg = gens.spell_dtype(dtarg, spec['dtspell'])
+            out.cls('dtype-spelling:' + ('object' if isinstance(dtarg, np.dtype) else dtarg.__name__ if isinstance(dtarg, type) else 'string'))
         out.cls('dtype:given' if dtarg is not None else 'dtype:None')
         if spec['dtarg'] and spec['dtarg']['t'] == spec['dt']['t'] and spec['dtarg']['bo'] != spec['dt']['bo']:
             out.cls('dtype:same-type-other-byteorder')
@@ -420,6 +425,14 @@ def grid():
             for bo2 in '<>':
                 yield {'f': 'copy', 'kind': 'Array', 'dt': {'t': t, 'bo': '<>'[(i + j) % 2]}, 'seed': i * 31 + j, 'dtarg': {'t': t2, 'bo': bo2},
                        'meta': None, 'mode': 'r', 'mut': None, 'side': 'src', 'shape': [5, 2], 'chunk': [None, 2][(i + j) % 2]}
+    # every spelling of the target type, for a source of the same type in either byte order and of another type
+    for t in NUMTYPES:
+        for k in range(1, len(gens.dtype_spellings(gens.mkdtype(t, '<')))):
+            for sbo, st_ in (('>', t), ('<', t), ('>', 'int8' if t != 'int8' else 'uint8')):
+                for kind in ('Array', 'Ragged'):
+                    spec = {'f': 'copy', 'kind': kind, 'dt': {'t': st_, 'bo': sbo}, 'seed': 5 + k, 'dtarg': {'t': t, 'bo': '<'}, 'dtspell': k,
+                            'meta': None, 'mode': 'r', 'mut': None, 'side': 'src'}
+                    yield dict(spec, shape=[3, 2], chunk=2) if kind == 'Array' else dict(spec, atom=[2], items=[{'n': 2, 'seed': 3}, {'n': 1, 'seed': 4}])
 
 
 def pre_grid():
